@@ -1135,7 +1135,152 @@ def check_C19(tier, seed):
     return rc
 
 
+
+# ------------------------------------------------------------------------------------------------ C13
+
+def validate_trace(module, trace_path, name, timeout=600):
+    """Binding B: TLC validates one ndjson trace against a trace specification. Returns (accepted, message)"""
+    cfg = os.path.join(outdir('cfg'), name + '.cfg')
+    open(cfg, 'w').write('SPECIFICATION TSpec\nPOSTCONDITION Accepted\nCHECK_DEADLOCK FALSE\n')
+    stats, text = run_tlc(module, cfg, name, workers=1, timeout=timeout, env={'TRACE': trace_path}, jvm=['-Xss1g', '-Dtlc2.tool.queue.IStateQueue=StateDeque'], xmx='4g')
+    if 'No error has been found' in text and 'REJECTED' not in text:
+        return True, '', stats
+    m = None
+    import re
+    m = re.search(r'"REJECTED at line", (\d+), (.*)', text)
+    if m:
+        return False, 'line %s: %s' % (m.group(1), m.group(2)[:300]), stats
+    if stats['errors']:
+        raise ToolError('trace validation %s: %s' % (name, stats['errors'][:2]))
+    return False, 'rejected (no position reported)', stats
+
+
+def check_C13(tier, seed):
+    t0 = time.time()
+    build('dev')
+    v = Verdict('C13')
+    acc = Acc()
+    q = tier == 'quick'
+    td = outdir('traces', 'C13'); vlib.clean_dir(td)
+    rep = run_driver('servo', ['--seed', str(seed), '--runs', '1200' if q else '40000', '--trace', os.path.join(td, 'servo')], 'C13-servo', timeout=3000)
+    acc.suites.append({'suite': 'C13-servo', 'driver': 'harness/src/bin/servo.rs', 'result': {k: rep[k] for k in rep if k != 'violations'}})
+    for item in rep.get('violations', []):
+        v.add({'kind': 'predicate', 'key': item['key'], 'detail': item['detail'], 'replay': item['replay'], 'count': rep['by_kind'].get(item['key'], 1)})
+    # Binding B: every recorded trace chunk must be a behaviour of Servo.tla
+    events = 0
+    chunks = rep['trace_chunks'] if q else min(rep['trace_chunks'], 60)
+    for i in range(chunks):
+        path = os.path.join(td, 'servo.%d.ndjson' % i)
+        ok, msg, stats = validate_trace('TraceServo.tla', path, 'C13-trace-%d' % i)
+        acc.states += stats['distinct']
+        acc.transitions += stats['generated']
+        n = sum(1 for _ in open(path))
+        events += n
+        if not ok:
+            keep = os.path.join(outdir('replay', 'C13-servo'), 'rejected-trace-%d.ndjson' % i)
+            shutil.copy(path, keep)
+            v.add({'kind': 'trace', 'key': 'C13/trace-rejected', 'detail': 'recorded trace is not a behaviour of Servo.tla: ' + msg, 'replay': keep})
+    # the binding bites: a trace with one out-of-bound command must be rejected
+    ctl = os.path.join(td, 'control.ndjson')
+    lines = open(os.path.join(td, 'servo.0.ndjson')).read().splitlines()
+    done = False
+    for i, ln in enumerate(lines):
+        e = json.loads(ln)
+        if e['e'] == 'freq' and not done and i > 50:
+            e['mag'] = 999999999
+            lines[i] = json.dumps(e)
+            done = True
+    open(ctl, 'w').write('\n'.join(lines) + '\n')
+    ok, msg, _ = validate_trace('TraceServo.tla', ctl, 'C13-trace-control')
+    if ok or not done:
+        raise ToolError('negative control: a trace with an out-of-bound frequency command was accepted')
+    acc.edges = chunks
+    acc.events = rep['measurements']
+    cov = {'states': acc.states, 'transitions': acc.transitions, 'traces_validated_against_impl': chunks, 'trace_events_validated': events,
+           'evaluations': rep['measurements'], 'distinct_nontrivial': rep['commands'],
+           'rule': 'adversarial measurement sequences (eight families: regular, equal event times, event times running backwards, zero-variance samples, alternating kinds, offsets up to '
+                   '+-1e9 s, intermittently failing clock, sign-alternating offsets) x servo configurations (step threshold 1 us .. 0.5 s, max frequency 1 .. 5000 ppm) into the real '
+                   'KalmanFilter / BasicFilter; every clock command is one trace event; non-trivial = a measurement that produced at least one command (counted: commands)',
+           'samples': [{'first_events_of_trace': [json.loads(x) for x in lines[:12]]}], 'suites': acc.suites,
+           'negative_control_rejected_at': msg, 'known_findings_seen': v.known}
+    rc = v.finish()
+    write_evidence('C13', tier, seed, 'exploration', cov,
+                   ['TLC is the oracle on recorded traces, not the explorer of the numeric state space', 'the mock clock moves by exactly the commanded steps and reports the time of each command',
+                    'frequency bound checked for the Kalman servo only (the property bounds only it); finiteness for both filters'], time.time() - t0, len(v.violations))
+    return rc
+
+
+
+# ------------------------------------------------------------------------------------------------ C02
+
+def check_C02(tier, seed):
+    t0 = time.time()
+    build('release')
+    v = Verdict('C02')
+    acc = Acc()
+    q = tier == 'quick'
+    td = outdir('traces', 'C02'); vlib.clean_dir(td)
+    rep = run_driver('servoloop', ['--seed', str(seed), '--runs', '40' if q else '2430', '--trace', os.path.join(td, 'loop')], 'C02-loop', profile='release', timeout=3000)
+    for f in rep.get('failures', []):
+        pth = os.path.join(outdir('replay', 'C02-loop'), 'failure-%d.json' % len(v.violations))
+        json.dump(f, open(pth, 'w'), indent=1)
+        v.add({'kind': 'predicate', 'key': 'C02/run', 'detail': 'closed-loop run failed: %s' % f['error'], 'replay': pth})
+    events = 0
+    nchunks = rep['trace_chunks']
+    for i in range(nchunks):
+        path = os.path.join(td, 'loop.%d.ndjson' % i)
+        ok, msg, stats = validate_trace('TraceLoop.tla', path, 'C02-trace-%d' % i)
+        acc.states += stats['distinct']
+        acc.transitions += stats['generated']
+        events += sum(1 for _ in open(path))
+        if not ok:
+            keep = os.path.join(outdir('replay', 'C02-loop'), 'rejected-trace-%d.ndjson' % i)
+            shutil.copy(path, keep)
+            v.add({'kind': 'trace', 'key': 'C02/trace-rejected', 'detail': 'closed-loop trace is not accepted by TraceLoop.tla: ' + msg, 'replay': keep})
+    # the binding bites: an observation above the bound after Tconv must be rejected
+    lines = open(os.path.join(td, 'loop.0.ndjson')).read().splitlines()
+    new = json.loads(lines[0])
+    for i in range(len(lines) - 1, 0, -1):
+        e = json.loads(lines[i])
+        if e['e'] == 'new':
+            break
+    ctl = os.path.join(td, 'control.ndjson')
+    done = False
+    for i, ln in enumerate(lines):
+        e = json.loads(ln)
+        if e['e'] == 'new':
+            new = e
+        if e['e'] == 'obs' and e['t'] >= new['tconv'] and not done:
+            e['off'] = new['bound'] + 1
+            lines[i] = json.dumps(e)
+            done = True
+    open(ctl, 'w').write('\n'.join(lines) + '\n')
+    ok, msg, _ = validate_trace('TraceLoop.tla', ctl, 'C02-trace-control')
+    if ok or not done:
+        raise ToolError('negative control: a trace with an offset above the bound after Tconv was accepted')
+    cells = rep['cells']
+    worst = {}
+    for c in cells:
+        w = worst.setdefault(str(c['jitter_us']), {'tail_max_ns': 0, 'last_above_bound_s': 0})
+        w['tail_max_ns'] = max(w['tail_max_ns'], c['tail_max_ns'])
+        w['last_above_bound_s'] = max(w['last_above_bound_s'], c['last_above_bound_s'])
+    cov = {'states': acc.states, 'transitions': acc.transitions, 'traces_validated_against_impl': nchunks, 'trace_events_validated': events,
+           'evaluations': len(cells), 'distinct_nontrivial': len(set(json.dumps([c[k] for k in ('offset_s', 'err_ppm', 'delay_us', 'jitter_us', 'log_sync', 'two_step')]) for c in cells)),
+           'rule': 'cells of the grid offset {0, +-999 us, +-1.001 ms, +-1 s, +-10 s} x oscillator error {0, +-50, +-150 ppm} x one-way delay {1, 100, 400 us} x jitter {0, 1, 20 us} x '
+                   'sync/delay interval {2^-3, 1, 2 s} x {one, two}-step (quick: the four corners + a seeded sample; thorough: 2430 cells), each a closed-loop run of Tconv + 200 s of a real '
+                   'port with the real Kalman servo; every run is distinct; all are non-trivial (the servo has to acquire)',
+           'samples': cells[:3], 'worst_per_jitter_us': worst, 'negative_control_rejected_at': msg,
+           'frozen_constants': {'Tconv_s': 'max(1200, 600 sync intervals)', 'Bound_ns': '500 + 3 * jitter_ns'}, 'known_findings_seen': v.known}
+    rc = v.finish()
+    write_evidence('C02', tier, seed, 'exploration', cov,
+                   ['TLC is the oracle on recorded closed-loop traces, not the explorer of the servo state space', 'simulated master, path (symmetric delay, uniform jitter) and oscillator (constant frequency error) in double precision',
+                    'Bound and Tconv are empirical: calibrated once on the unchanged tree over 12 150 runs with a margin of at least 3'], time.time() - t0, len(v.violations))
+    return rc
+
+
 CHECKS = {
+    'C02': check_C02,
+    'C13': check_C13,
     'C19': check_C19,
     'C20': check_C20,
     'C04': check_C04,
